@@ -376,15 +376,11 @@ def columns(led):
     for (fmt, marker), reader in FIXED.items():
         recs = [r for r in fmtspec.records("iodata.formats." + fmt) if marker in r.text()]
         rnode = source.find_def("iodata.formats." + fmt, reader)
-        slices = []
-        for nnode in ast.walk(rnode):
-            if isinstance(nnode, ast.Subscript) and isinstance(nnode.value, ast.Name) and nnode.value.id == "line" and isinstance(nnode.slice, ast.Slice):
-                lo = nnode.slice.lower.value if isinstance(nnode.slice.lower, ast.Constant) else (0 if nnode.slice.lower is None else None)
-                hi = nnode.slice.upper.value if isinstance(nnode.slice.upper, ast.Constant) else None
-                if lo is not None and hi is not None:
-                    slices.append((lo, hi))
+        slices, unresolved = source.constant_slices("iodata.formats." + fmt, rnode, "line")
+        slices = sorted(slices)
         if not recs or not slices:
-            rec(led, f"columns@{fmt}.{reader}::writer-record-and-reader-slices-found", False, f"records with {marker!r}: {len(recs)}, constant slices: {slices}", backend="ast")
+            # the analysis does not find the record / the column ranges any more: undecided, not a violation
+            led.record(f"columns@{fmt}.{reader}::writer-record-and-reader-slices-found", "post", "unknown", "ast", 0.0, detail=f"records with {marker!r}: {len(recs)}, constant slices: {slices}, unresolved subscripts: {unresolved}")
             continue
         for r in recs:
             pos, spans, known = 0, [], True
